@@ -1073,7 +1073,9 @@ func (c *controller) getImageForMessageRef(
 		imageFromProtoOptions = append(imageFromProtoOptions, bufimage.WithNoReparse())
 	case buffetch.MessageEncodingYAML:
 		// No need to apply validation - Images do not use protovalidate.
-		resolver, err := bootstrapResolver(protoencoding.NewYAMLUnmarshaler(nil), data)
+		// The first pass has no resolver yet, so custom options cannot be resolved: skip them,
+		// as the JSON and txtpb unmarshalers do.
+		resolver, err := bootstrapResolver(protoencoding.NewYAMLUnmarshaler(nil, protoencoding.YAMLUnmarshalerWithDiscardUnknown()), data)
 		if err != nil {
 			return nil, err
 		}
